@@ -463,9 +463,12 @@ func (l *commitLog) HighWatermark() int64 {
 	return l.hw
 }
 
-// NewLeaderEpoch indicates the log is entering a new leader epoch.
+// NewLeaderEpoch indicates the log is entering a new leader epoch. The epoch
+// starts at the offset the next message will get, which is also what a
+// replica records when it learns the epoch from the first replicated message
+// that carries it.
 func (l *commitLog) NewLeaderEpoch(epoch uint64) error {
-	return l.leaderEpochCache.Assign(epoch, l.NewestOffset())
+	return l.leaderEpochCache.Assign(epoch, l.NewestOffset()+1)
 }
 
 // LastOffsetForLeaderEpoch returns the start offset of the first leader epoch
